@@ -60,12 +60,20 @@ type glTarget struct {
 	// blockFrom up to (not including) the one that starts with blockUpto, as a function of the configured binders
 	// (every free name must be covered by `paths`) returning the expression blockResult afterwards.  The block
 	// must not leave the enclosing function (no return inside).
-	traceLean   string // Lean type of one trace entry ("" = the function has no effect externs)
+	traceLean string // Lean type of one trace entry ("" = the function has no effect externs)
+	// typeCases: for `switch k := x.(type)`: printed Go type of a case -> the Lean pattern that stands for it and the
+	// selector chains on the bound variable that the pattern's fields stand for (added to `paths` inside the case)
+	typeCases   map[string]glTypeCase
 	in          string
 	blockFrom   string
 	blockUpto   string
 	blockResult string
 	blockResGo  string
+}
+
+type glTypeCase struct {
+	pattern string
+	bind    map[string][2]string
 }
 
 var glTargets []glTarget
@@ -836,6 +844,8 @@ func (c *glCtx) stmts(list []ast.Stmt, d int) string {
 		return c.ifStmt(x, rest, d)
 	case *ast.SwitchStmt:
 		return c.stmts(append([]ast.Stmt{c.switchToIf(x)}, rest...), d)
+	case *ast.TypeSwitchStmt:
+		return c.typeSwitch(x, rest, d)
 	case *ast.RangeStmt:
 		return c.rangeStmt(x, rest, d)
 	case *ast.ForStmt:
@@ -1011,6 +1021,78 @@ func (c *glCtx) ifStmt(x *ast.IfStmt, rest []ast.Stmt, d int) string {
 		// unreachable rest: Go would reject most such code; keep what is reachable
 	}
 	return "if " + cond + " then" + ind(d+1) + thenS + ind(d) + "else" + ind(d+1) + elseS
+}
+
+// typeSwitch: `switch k := x.(type) { case T: … default: … }` over a value whose dynamic types are a configured Lean
+// inductive: one `match` arm per case (types of one clause that share a pattern are merged), `_` for default (or for
+// falling out of the switch). Inside a case the configured selector chains on k read the pattern's fields.
+func (c *glCtx) typeSwitch(x *ast.TypeSwitchStmt, rest []ast.Stmt, d int) string {
+	if x.Init != nil || c.t.typeCases == nil {
+		c.fail(x, "type switch (no type cases configured)")
+	}
+	var ta *ast.TypeAssertExpr
+	switch a := x.Assign.(type) {
+	case *ast.ExprStmt:
+		ta, _ = a.X.(*ast.TypeAssertExpr)
+	case *ast.AssignStmt:
+		if len(a.Rhs) == 1 {
+			ta, _ = a.Rhs[0].(*ast.TypeAssertExpr)
+		}
+	}
+	if ta == nil {
+		c.fail(x, "type switch header")
+	}
+	scrut, _ := c.expr(ta.X)
+	out := "match " + scrut + " with"
+	hasDefault := false
+	for _, cl := range x.Body.List {
+		cc := cl.(*ast.CaseClause)
+		var pats []string
+		bind := map[string][2]string{}
+		if cc.List == nil {
+			hasDefault = true
+			pats = []string{"_"}
+		}
+		for _, ty := range cc.List {
+			tc, ok := c.t.typeCases[c.p.str(ty)]
+			if !ok {
+				c.fail(ty, "type switch case %s is not configured", c.p.str(ty))
+			}
+			dup := false
+			for _, p := range pats {
+				if p == tc.pattern {
+					dup = true
+				}
+			}
+			if !dup {
+				pats = append(pats, tc.pattern)
+			}
+			for k, v := range tc.bind {
+				bind[k] = v
+			}
+		}
+		if len(pats) > 1 && len(bind) > 0 {
+			c.fail(cc, "a type switch case with several patterns cannot bind fields")
+		}
+		saved := c.t.paths
+		merged := map[string][2]string{}
+		for k, v := range saved {
+			merged[k] = v
+		}
+		for k, v := range bind {
+			merged[k] = v
+		}
+		c.t.paths = merged
+		c.push()
+		body := c.stmts(append(append([]ast.Stmt{}, cc.Body...), rest...), d+1)
+		c.pop()
+		c.t.paths = saved
+		out += ind(d) + "| " + strings.Join(pats, " | ") + " =>" + ind(d+1) + body
+	}
+	if !hasDefault {
+		out += ind(d) + "| _ =>" + ind(d+1) + c.stmts(rest, d+1)
+	}
+	return out
 }
 
 // assignsIdent: is there a plain assignment (=, op=, ++) to the identifier n anywhere in the statements?
